@@ -207,16 +207,21 @@ import random as _random
 ATTR_R = _random.Random(99)
 
 
-def gen_attr(r):
-    """-> (rust source, proto)"""
+def gen_attr(r, force=None):
+    """-> (rust source, proto); `force` = dict(params, out, mention): the fixed part of the corpus, a `bounds(..)` list that names every
+    parameter but params[out] (and, with `mention`, names that one inside a predicate that does not bound it)"""
     union = r.random() < 0.08
-    params = r.choice([[], ['T'], ['T', 'U'], ['T', 'U'], ['U', 'T'], ['K', 'A']])
+    # (look-alike names: one a prefix / suffix / case variant of the other, or equal up to leading `r`s - names are compared whole)
+    params = r.choice([[], ['T'], ['T', 'U'], ['T', 'U'], ['U', 'T'], ['K', 'A'], ['T', 'rT'], ['rT', 'T'], ['r', 'rr'], ['T', 'TT'], ['Tt', 'T'], ['T_', 'T'],
+                       ['T', 't']])
     if union:
         params = []
     attrs = []
     c = r.random()
     skipped = [p for p in params if r.random() < 0.4]
     mode = r.choice(['valid', 'valid', 'dup', 'unknown', 'badcap', 'missing_bound', 'plain'])
+    if force is not None:
+        union, params, skipped, mode = False, list(force['params']), [], 'missing_bound'
     if mode in ('valid', 'dup', 'missing_bound') and params:
         if skipped:
             attrs.append(('skip', skipped))
@@ -226,8 +231,10 @@ def gen_attr(r):
             if mode == 'missing_bound' and named:
                 # leave one non-skipped parameter out; put a skipped one before it when possible
                 out = named[-1] if r.random() < 0.5 else named[0]
+                if force is not None:
+                    out = params[force['out']]
                 named = [p for p in named if p != out]
-                if r.random() < 0.6:
+                if (r.random() < 0.6) if force is None else force['mention']:
                     # ... but mention it in a predicate that does NOT bound the parameter itself (a projection, a type built from it)
                     extra.append((r.choice(['vec', 'proj', 'qproj', 'ref']), out))
             for p in params:
@@ -589,6 +596,16 @@ def main():
                     src, p = gen_gen(random.Random(7000 + kx), force=dict(lifetime=lifetime, const=const, skipped=skipped, foreign=(kx % 4 == 1)))
                     open(os.path.join(bind, f'xg{kx}.rs'), 'w').write(src)
                     lines.append(f'neg xg{kx} gen {p}')
+                    kx += 1
+    if 'attr' in classes:
+        # fixed part: one parameter left without a bound, over pairs of names that differ by little
+        kx = 0
+        for names in (['T', 'U'], ['T', 'rT'], ['rT', 'T'], ['r', 'rr'], ['T', 'TT'], ['Tt', 'T'], ['T_', 'T'], ['T', 't'], ['K', 'A']):
+            for out_k in (0, 1):
+                for mention in (False, True):
+                    src, p = gen_attr(random.Random(9000 + kx), force=dict(params=names, out=out_k, mention=mention))
+                    open(os.path.join(bind, f'xa{kx}.rs'), 'w').write(src)
+                    lines.append(f'neg xa{kx} attr {p}')
                     kx += 1
     if 'bld' in classes:
         # exhaustive small part, the same in every run: every sequence of 1..3 field-builder calls over {name, ty, compact, type_name}
